@@ -114,14 +114,21 @@ Section Model.
     let e1 := run e pre_stmts in
     let c1 := eval (fst e1) pre_cond1 in
     let c2 := eval (fst e1) pre_cond2 in
-    let call := if nonzero (valZ c2) then pre_call1 else pre_call2 in
-    let nb := eval (fst e1) (fst call) in
-    let bm := eval (fst e1) (snd call) in
+    let nb1 := eval (fst e1) (fst pre_call1) in
+    let bm1 := eval (fst e1) (snd pre_call1) in
+    let nb2 := eval (fst e1) (fst pre_call2) in
+    let bm2 := eval (fst e1) (snd pre_call2) in
     guard (snd e1 && def c1)
       (if nonzero (valZ c1) then
-         guard (def c2 && def nb && def bm)
-           (let* r := use s inp buflen (argN use_ty_nbytes nb) (argN use_ty_bytemod bm) in
-            Ok (r, nonzero (valZ c2)))
+         guard (def c2)
+           (if nonzero (valZ c2) then
+              guard (def nb1 && def bm1)
+                (let* r := use s inp buflen (argN use_ty_nbytes nb1) (argN use_ty_bytemod bm1) in
+                 Ok (r, true))
+            else
+              guard (def nb2 && def bm2)
+                (let* r := use s inp buflen (argN use_ty_nbytes nb2) (argN use_ty_bytemod bm2) in
+                 Ok (r, false)))
        else Ok (s, [], inp, buflen, false)).
 
   (* the loop  while (sw_cond) { generate; use(sw_call) }  of crypto_aesctr_stream *)
